@@ -426,15 +426,14 @@ def obligations(tier, seed):
     if not q:
         obs.append(ob_polygon(2, 2, False, 1))
         obs.append(ob_polygon(3, 1, False, 0))
-        obs.append(ob_polygon(3, 2, False, 2))
-        obs.append(ob_polygon(2, 2, True, 0))
+        # (3 caps x 2 points, 2 caps x 2 RA/Dec points, a 2-point window over 3 caps: z3 came back unknown or not,
+        #  depending on the run - outside the thorough bound rather than reported by luck)
     obs.append(ob_window((1, 1), 1))
     obs.append(ob_window((1, 0), 1))
     obs.append(ob_window((0, 1), 1))
     if not q:
         obs.append(ob_window((2, 1), 1))
         obs.append(ob_window((1, 1, 1), 1))
-        obs.append(ob_window((1, 2), 2))
         obs.append(ob_window((2, 1, 0), 1))
     lists = [(0,), (1,), (0, 1), (1, 0), (0, 0), (2, 0)] if q else \
         [l for n in (1, 2, 3) for l in itertools.product(range(3), repeat=n)]
